@@ -18,7 +18,7 @@ EXPLANATION = ("Deductive: _sum_piece's loop is proved equal to the four documen
 
 
 def units(tier):
-    return (([N.U_SUM_PIECE, N.U_COMPUTE_1, N.U_COMPUTE_2, N.U_COMPUTE_3, F.L_SUM_HOMOGENEOUS, N.L_SUM_POSITIVE]) + N.U_COMPOSITE_OUTER) + F.U_FORMULA_OF_FORMULA + F.U_INIT
+    return (([N.U_SUM_PIECE, N.U_COMPUTE_1, N.U_COMPUTE_2, N.U_COMPUTE_3, F.L_SUM_HOMOGENEOUS, N.L_SUM_POSITIVE]) + N.U_COMPOSITE_OUTER) + F.U_FORMULA_OF_FORMULA + F.U_INIT + [N.U_NS_WAVELENGTH, N.U_NS_DEFAULT]
 
 
 def runner_tasks(tier):
